@@ -1,5 +1,6 @@
 import DdoModel.Proto
 import DdoModel.Mdd
+import DdoModel.Pooled
 import DdoModel.Families
 import DdoModel.Engines.Store
 /-! Driver engine `mdd`: one compilation of a diagram (after an unobserved history on the same
@@ -134,11 +135,38 @@ def parseImpl (i : List String) : Option ImplOut := do
 /-- replay of a complete decision list from the problem root; `some (state, value, depth)` -/
 def replay (P : Problem Int) (p : List Dec) : Option (Int × Int × Nat) := evalFrom P 0 P.init P.initVal (sortDecs p)
 
+/-- replay of a *prefix* with default completion up to (at most) depth `upTo`: stops as soon as the decisions are used up and
+    the depth `upTo` is reached -/
+def replaySkipTo (P : Problem Int) (upTo : Nat) (p : List Dec) : Option (Int × Int × Nat) :=
+  let rec go : Nat → Nat → Int → Int → List Dec → Option (Int × Int × Nat)
+    | 0, depth, s, v, ds => if ds.isEmpty then some (s, v, depth) else none
+    | fuel + 1, depth, s, v, ds =>
+      if ds.isEmpty && depth ≥ upTo then some (s, v, depth) else
+      match P.nextVar depth [s] with
+      | none => if ds.isEmpty then some (s, v, depth) else none
+      | some x =>
+        match ds with
+        | d :: rest =>
+          if d.var = x then
+            (if (P.domain x s).contains d.val then go fuel (depth + 1) (P.trans s d) (v + P.cost s (P.trans s d) d) rest else none)
+          else if P.impacted x s then none else go fuel (depth + 1) s v ds
+        | [] => if P.impacted x s then none else go fuel (depth + 1) s v []
+  go (P.nbVars + 1) 0 P.init P.initVal (sortDecs p)
+
 def eLt (lb : Int) (x : EInt) : Bool := match x with | none => false | some o => decide (o > lb)
 
 /-- a solution: replays, passes through the root sub-problem, reaches a terminal state, has value `w` -/
-def isCompletion (P : Problem Int) (root : SubP Int) (p : List Dec) (w : Int) : Bool :=
+def isCompletion (P : Problem Int) (root : SubP Int) (p : List Dec) (w : Int) (pooled : Bool := false) : Bool :=
   let sp := sortDecs p
+  if pooled then
+    -- default-completed replay: the decisions of the root path are a prefix (as a set of variables < root.depth)
+    (match replaySkipTo P root.depth (sp.filter (fun d => d.var < root.depth)) with
+     | some (s, v, d) => s == root.state && v == root.value && d == root.depth
+     | none => false) &&
+    (match replaySkipTo P P.nbVars sp with
+     | some (s, v, d) => v == w && (P.nextVar d [s]).isNone
+     | none => false)
+  else
   (match evalFrom P 0 P.init P.initVal (sp.take root.depth) with
    | some (s, v, d) => s == root.state && v == root.value && d == root.depth
    | none => false) &&
@@ -213,9 +241,14 @@ def mddEngine (c i : List String) : Option Res := do
     let io ← parseImpl i
     let P := fam.problem
     let cfg := cfgOf fam req
-    if req.kind ≥ 2 then none else
-    let (oc, r1, r2, dd) := compile cfg (cacheOf fam req) (DomStore.init P.nbVars) 0 req.stopAt
-    let mlog := sortStr (dd.log.map showCall)
+    let (oc, r1, r2, mlogRaw, mpolls, mndom) :=
+      if req.kind ≥ 2 then
+        let (oc, r1, r2, pd) := compileP cfg (cacheOf fam req) (DomStore.init P.nbVars) 0 req.stopAt
+        (oc, r1, r2, pd.log, pd.polls, pd.ndom)
+      else
+        let (oc, r1, r2, dd) := compile cfg (cacheOf fam req) (DomStore.init P.nbVars) 0 req.stopAt
+        (oc, r1, r2, dd.log, dd.polls, dd.ndom)
+    let mlog := sortStr (mlogRaw.map showCall)
     let ilog := sortStr (io.log.map join)
     -- agreement (not for the coarse ranking: the kept / merged split then depends on the hash order,
     -- DESIGN.md §4 — only phi is evaluated)
@@ -229,7 +262,7 @@ def mddEngine (c i : List String) : Option Res := do
        | .ok => (agreeOne r1 || (match r2 with | some r => agreeOne r | none => false))
        | .cutoff => io.status == ["cutoff"]
        | .crash => io.status == ["panic"])
-      && io.polls == dd.polls && io.ndom == dd.ndom && (oc != .ok || mlog == ilog))
+      && io.polls == mpolls && io.ndom == mndom && (oc != .ok || mlog == ilog))
     -- phi
     let root := req.root
     let optN : EInt := (fam.H root.depth root.state).addI root.value
@@ -244,7 +277,7 @@ def mddEngine (c i : List String) : Option Res := do
         -- feasibility of what is reported as exact
         match bev, io.bestExactSol with
         | some w, some p =>
-          if !(isCompletion P root p w) then f := ((if req.ctype == 1 then "C06" else "C07") ++ ":best exact solution is not a feasible completion with the reported value") :: f
+          if !(isCompletion P root p w (req.kind == 2)) then f := ((if req.ctype == 1 then "C06" else "C07") ++ ":best exact solution is not a feasible completion with the reported value") :: f
           if isolated && !(eLt (w - 1) optN) then f := ((if req.ctype == 1 then "C06" else "C07") ++ ":best exact value above the sub-problem optimum") :: f
         | some _, none => f := "C06:best exact value without solution" :: f
         | none, some _ => f := "C06:best exact solution without value" :: f
@@ -261,10 +294,13 @@ def mddEngine (c i : List String) : Option Res := do
             -- C08
             if !isExact then
               for (s, d, v, ub, p) in io.cutset do
-                match replay P p with
+                match (if req.kind == 2 then replaySkipTo P d p else replay P p) with
                 | some (s', v', d') => if s' != s || v' != v || d' != d then f := "C08:(i) cut-set node is not reached by its path with its value and depth" :: f
                 | none => f := "C08:(i) cut-set path is not feasible" :: f
-                if d ≤ root.depth then f := "C08:(ii) cut-set node not strictly deeper than the root of the diagram" :: f
+                if d ≤ root.depth then
+                  f := (if req.kind == 2 && !(allImpacted fam) then
+                          "C08:(ii)-pooled-long-arcs the root of a pooled diagram is handed out by its own cut-set (a child of the root lingered in the pool and was merged, recycled or reached by a relaxed arc)"
+                        else "C08:(ii) cut-set node not strictly deeper than the root of the diagram") :: f
                 let phiC : EInt := (fam.H d s).addI v
                 -- (iii) is about diagrams that received no dominance verdict: a child pruned in favour of a
                 -- dominator of the same layer is (soundly) missing from the local bound (DESIGN.md §6 C08)
@@ -278,7 +314,7 @@ def mddEngine (c i : List String) : Option Res := do
             -- C07
             match bv, io.bestSol with
             | some w, some p =>
-              if !(isCompletion P root p w) then f := "C07:best solution of a restricted / exact diagram is not a feasible completion with the reported value" :: f
+              if !(isCompletion P root p w (req.kind == 2)) then f := "C07:best solution of a restricted / exact diagram is not a feasible completion with the reported value" :: f
               if !(eLt (w - 1) optN) then f := "C07:restricted / exact best value above the optimum" :: f
             | some _, none => f := "C07:value without solution" :: f
             | _, _ => pure ()
@@ -303,7 +339,7 @@ def mddEngine (c i : List String) : Option Res := do
        s!" || cutset {cs} || ups {ups} || expanded {ex}" ++
        (match r2 with | some r => (let (_, cs, ups, _) := showResult r; s!" || ALT cutset {cs} || ups {ups}") | none => "") ++
        (if mlog == ilog then "" else s!" || LOG DIFFERS: model-only {mlog.filter (fun x => !ilog.contains x)} impl-only {ilog.filter (fun x => !mlog.contains x)}"))
-    pure { agree := agree, phi := fails.isEmpty, model := ms ++ s!" polls {dd.polls}" ++ detail, note := note }
+    pure { agree := agree, phi := fails.isEmpty, model := ms ++ s!" polls {mpolls}" ++ detail, note := note }
   | _ => none
 
 end Ddo.Engines
